@@ -104,6 +104,11 @@ def cmp_decode(prop, case, model, mat, F, variant, final):
         elif not impl.get("re_stable"):
             F.oracle_failure("reencode_stable", "%s: re-encoding is not a fixed point" % where, case, variant)
     for w, r in (impl.get("wrappers") or {}).items():
+        if w.startswith("invalid_tail:"):
+            # the byte sequence followed by an element that is not a u8 is not an encoding of anything
+            if r.get("status") == "ok" and cin["form"] == "bytes":
+                F.oracle_failure("seq_invalid_element_swallowed", "type=%s via=%s backend=%s: the sequence [<%d bytes>, 300] is accepted (the element that is not a u8 is dropped silently)" % (cin["type"], w.split(":", 1)[1], cin.get("backend"), len(cin["input"]) // 2), case, variant)
+            continue
         if r.get("status") != st:
             F.oracle_failure("wrapper_agrees_with_primitive", "%s: %s returns %s, the primitive's own decoder %s" % (where, w, r.get("status"), st), case, variant)
     if _driver_failed(model, case, F, variant):
